@@ -27,11 +27,19 @@
 (*        still has change-log rows; it builds on the uncommitted version  *)
 (*   UpdatesDeactivated    update operations are accepted on a deactivated *)
 (*        subject; did:nuts Commit then silently publishes nothing         *)
+(*   CheckOutsideTx        (not in the current code) the admission check   *)
+(*        of an operation is a step of its own before the inserting        *)
+(*        transaction: check-then-act between concurrent requests          *)
+(*                                                                         *)
+(* Requests run concurrently: Procs are the request goroutines; every      *)
+(* action is one critical section (one SQL transaction, one Commit call)   *)
+(* and all interleavings of the sections of two requests are explored.     *)
 (***************************************************************************)
 EXTENDS Naturals, Sequences, FiniteSets, TLC
 
-CONSTANTS Subjects, MaxOps, MaxFaults, MaxTicks, MaxSweeps, Hist, WithTail,
-          SweepAbortsOnUnpublishedCreate, AbandonKeepsDidRows, OpsBuildOnPending, UpdatesDeactivated
+CONSTANTS Subjects, Procs, MaxOps, MaxFaults, MaxTicks, MaxSweeps, Hist, WithTail,
+          SweepAbortsOnUnpublishedCreate, AbandonKeepsDidRows, OpsBuildOnPending, UpdatesDeactivated,
+          CheckOutsideTx
 
 Methods == {"web", "nuts"}
 Ops == {"create", "addSvc", "updSvc", "delSvc", "addKey", "deactivate"}
@@ -40,7 +48,7 @@ VARIABLES rows,       \* [Subjects -> SUBSET Nat]: generations of rows in table 
           vers,       \* [Subjects -> [Methods -> SUBSET version records]]: table did_document_version
           log,        \* set of [tx, s, m, typ, op]: table did_change_log (op is a ghost field)
           pub,        \* [Subjects -> Seq(content)]: what the network / didstore has for the did:nuts DID
-          pc,         \* the running operation
+          pc,         \* [Procs -> the operation the request goroutine is running] (concurrent API requests)
           nops, faults, ticks, sweeps,
           swept,      \* TRUE iff a sweep ran that considered every pending log row (all were older than a minute)
           pubtx,      \* ghost: transaction ids whose did:nuts version went out on the network
@@ -54,6 +62,8 @@ vars == <<rows, vers, log, pub, pc, nops, faults, ticks, sweeps, swept, pubtx, a
 ViewNoHist == <<rows, vers, log, pub, pc, nops, faults, ticks, sweeps, swept, pubtx, abandoned, pubkeys, retryOp, phase, todo>>
 
 Idle == [ph |-> "idle"]
+AllIdle == \A p \in Procs : pc[p] = Idle
+Active == {p \in Procs : pc[p] # Idle}
 Max(S) == CHOOSE x \in S : \A y \in S : y <= x
 NextN(S) == IF S = {} THEN 0 ELSE Max({v.n : v \in S}) + 1
 Latest(s, m) == CHOOSE v \in vers[s][m] : \A w \in vers[s][m] : w.n <= v.n
@@ -65,7 +75,7 @@ H(e) == IF Hist THEN Append(hist, e) ELSE hist
 Init == /\ rows = [s \in Subjects |-> {}]
         /\ vers = [s \in Subjects |-> [m \in Methods |-> {}]]
         /\ log = {} /\ pub = [s \in Subjects |-> <<>>]
-        /\ pc = Idle /\ nops = 0 /\ faults = 0 /\ ticks = 0 /\ sweeps = 0 /\ swept = TRUE
+        /\ pc = [p \in Procs |-> Idle] /\ nops = 0 /\ faults = 0 /\ ticks = 0 /\ sweeps = 0 /\ swept = TRUE
         /\ pubtx = {} /\ abandoned = {} /\ pubkeys = {} /\ retryOp = [s \in Subjects |-> "none"]
         /\ phase = "run" /\ todo = {} /\ hist = <<>>
 
@@ -108,20 +118,35 @@ NewContent(op, s, m, tx) ==
     ELSE IF op = "deactivate" THEN [keys |-> {}, svc |-> "none"]
     ELSE Apply(op, Content(Latest(s, m)), tx)
 
-Tx1Core(op, s) ==
-    /\ pc = Idle
-    /\ \/ (phase = "run" /\ nops < MaxOps /\ todo' = todo)
-       \/ (phase = "swept" /\ s \in todo /\ retryOp[s] = op /\ todo' = todo \ {s})
+\* CheckOutsideTx: the admission check is its own step (a query outside the inserting transaction); Tx1 then acts on
+\* the verdict of that earlier moment (check-then-act).
+Check(op, s, p) ==
+    /\ CheckOutsideTx /\ pc[p] = Idle /\ phase = "run" /\ nops < MaxOps
     /\ nops' = nops + 1
-    /\ LET tx == nops + 1 IN
-       IF Rejected(op, s)
-       THEN /\ hist' = H([a |-> "Tx1", op |-> op, s |-> s, out |-> "reject"])
-            /\ UNCHANGED <<rows, vers, log, pc, swept>>
+    /\ pc' = [pc EXCEPT ![p] = [ph |-> "checked", s |-> s, op |-> op, tx |-> nops + 1, rej |-> Rejected(op, s)]]
+    /\ hist' = H([a |-> "Check", p |-> p, op |-> op, s |-> s])
+    /\ UNCHANGED <<rows, vers, log, pub, faults, ticks, sweeps, swept, pubtx, abandoned, pubkeys, retryOp, phase, todo>>
+
+Tx1Core(op, s, p) ==
+    /\ \/ /\ pc[p] = Idle /\ ~CheckOutsideTx
+          /\ \/ (phase = "run" /\ nops < MaxOps /\ todo' = todo)
+             \/ (phase = "swept" /\ AllIdle /\ s \in todo /\ retryOp[s] = op /\ todo' = todo \ {s})
+          /\ nops' = nops + 1
+       \/ /\ pc[p].ph = "checked" /\ pc[p].op = op /\ pc[p].s = s
+          /\ UNCHANGED <<nops, todo>>
+    /\ LET tx == IF pc[p] = Idle THEN nops + 1 ELSE pc[p].tx
+           rejected == IF pc[p] = Idle THEN Rejected(op, s)
+                       ELSE pc[p].rej \/ (op # "create" /\ op # "deactivate" /\ ~HasDocs(s)) IN
+       IF rejected
+       THEN /\ hist' = H([a |-> "Tx1", p |-> p, op |-> op, s |-> s, out |-> "reject"])
+            /\ pc' = [pc EXCEPT ![p] = Idle]
+            /\ UNCHANGED <<rows, vers, log, swept>>
        ELSE LET ch == {m \in Methods : NewContent(op, s, m, tx) # Same} IN
             IF ch = {}
-            THEN /\ hist' = H([a |-> "Tx1", op |-> op, s |-> s, out |-> "noop"])
-                 /\ UNCHANGED <<rows, vers, log, pc, swept>>
-            ELSE /\ rows' = IF op = "create" THEN [rows EXCEPT ![s] = {tx}] ELSE rows
+            THEN /\ hist' = H([a |-> "Tx1", p |-> p, op |-> op, s |-> s, out |-> "noop"])
+                 /\ pc' = [pc EXCEPT ![p] = Idle]
+                 /\ UNCHANGED <<rows, vers, log, swept>>
+            ELSE /\ rows' = IF op = "create" THEN [rows EXCEPT ![s] = rows[s] \cup {tx}] ELSE rows
                  /\ vers' = [vers EXCEPT ![s] = [m \in Methods |->
                         IF m \in ch
                         THEN LET c == NewContent(op, s, m, tx) IN
@@ -129,12 +154,13 @@ Tx1Core(op, s) ==
                                                keys |-> c.keys, svc |-> c.svc, fresh |-> TRUE]}
                         ELSE vers[s][m]]]
                  /\ log' = log \cup {[tx |-> tx, s |-> s, m |-> m, typ |-> TypOf(op), op |-> op] : m \in ch}
-                 /\ pc' = [ph |-> "commit", s |-> s, tx |-> tx, op |-> op, ch |-> ch, done |-> {}, failed |-> FALSE, inj |-> FALSE]
+                 /\ pc' = [pc EXCEPT ![p] = [ph |-> "commit", s |-> s, tx |-> tx, op |-> op, ch |-> ch, done |-> {},
+                                             failed |-> FALSE, inj |-> FALSE]]
                  /\ swept' = FALSE
-                 /\ hist' = H([a |-> "Tx1", op |-> op, s |-> s, out |-> "changed"])
+                 /\ hist' = H([a |-> "Tx1", p |-> p, op |-> op, s |-> s, out |-> "changed"])
     /\ UNCHANGED <<pub, faults, ticks, sweeps, pubtx, abandoned, pubkeys, retryOp, phase>>
 
-Tx1(op, s) == EnvOK(op, s) /\ Tx1Core(op, s)
+Tx1(op, s, p) == (pc[p] = Idle => EnvOK(op, s)) /\ Tx1Core(op, s, p)
 
 (* ------------------------------------------------------- CommitMethod *)
 MyVersion(s, m, tx) == CHOOSE v \in vers[s][m] : v.tx = tx
@@ -152,54 +178,55 @@ NutsOutcomes(typ, s) ==
             IF pub[s] = <<>> \/ Deact(Last(pub[s])) THEN {<<"fail", FALSE, FALSE>>}   \* Update: not found / ErrDeactivated
             ELSE {<<"ok", TRUE, FALSE>>} \cup inj
 
-CommitMethod(m) ==
-    /\ pc.ph = "commit" /\ ~pc.failed /\ m \in pc.ch \ pc.done
-    /\ LET s == pc.s
-           v == MyVersion(s, m, pc.tx)
+CommitMethod(p, m) ==
+    /\ pc[p].ph = "commit" /\ ~pc[p].failed /\ m \in pc[p].ch \ pc[p].done
+    /\ LET s == pc[p].s
+           v == MyVersion(s, m, pc[p].tx)
            outs == IF m = "web" THEN {<<"ok", FALSE, FALSE>>} ELSE NutsOutcomes(v.typ, s) IN
        \E o \in outs :
-          /\ pc' = [pc EXCEPT !.done = pc.done \cup {m}, !.failed = (o[1] = "fail"), !.inj = o[3]]
+          /\ pc' = [pc EXCEPT ![p].done = pc[p].done \cup {m}, ![p].failed = (o[1] = "fail"), ![p].inj = o[3]]
           /\ pub' = IF o[2] THEN [pub EXCEPT ![s] = Append(pub[s], Content(v))] ELSE pub
-          /\ pubtx' = IF o[2] THEN pubtx \cup {pc.tx} ELSE pubtx
+          /\ pubtx' = IF o[2] THEN pubtx \cup {pc[p].tx} ELSE pubtx
           /\ pubkeys' = IF o[2] THEN pubkeys \cup v.keys ELSE pubkeys
           /\ faults' = IF o[3] THEN faults + 1 ELSE faults
-          /\ retryOp' = IF o[3] THEN [retryOp EXCEPT ![s] = pc.op] ELSE retryOp
-          /\ hist' = H([a |-> "Commit", m |-> m, res |-> o[1], inj |-> o[3]])
+          /\ retryOp' = IF o[3] THEN [retryOp EXCEPT ![s] = pc[p].op] ELSE retryOp
+          /\ hist' = H([a |-> "Commit", p |-> p, m |-> m, res |-> o[1], inj |-> o[3]])
     /\ UNCHANGED <<rows, vers, log, nops, ticks, sweeps, swept, abandoned, phase, todo>>
 
 (* ---------------------------------------------------------------- Tx2 *)
 DropTx(vs, tx) == [s \in Subjects |-> [m \in Methods |-> {v \in vs[s][m] : v.tx # tx}]]
 
-Tx2 ==
-    /\ pc.ph = "commit" /\ (pc.failed \/ pc.done = pc.ch)
-    /\ IF pc.failed
-       THEN /\ vers' = DropTx(vers, pc.tx)
-            /\ log' = {l \in log : l.tx # pc.tx}
-            /\ abandoned' = abandoned \cup {pc.tx}
-            /\ rows' = IF pc.op = "create" /\ ~AbandonKeepsDidRows THEN [rows EXCEPT ![pc.s] = {}] ELSE rows
-            /\ hist' = H([a |-> "Tx2", kind |-> "abandon"])
+Tx2(p) ==
+    /\ pc[p].ph = "commit" /\ (pc[p].failed \/ pc[p].done = pc[p].ch)
+    /\ IF pc[p].failed
+       THEN /\ vers' = DropTx(vers, pc[p].tx)
+            /\ log' = {l \in log : l.tx # pc[p].tx}
+            /\ abandoned' = abandoned \cup {pc[p].tx}
+            /\ rows' = IF pc[p].op = "create" /\ ~AbandonKeepsDidRows THEN [rows EXCEPT ![pc[p].s] = {}] ELSE rows
+            /\ hist' = H([a |-> "Tx2", p |-> p, kind |-> "abandon"])
             /\ UNCHANGED retryOp
-       ELSE /\ log' = {l \in log : l.tx # pc.tx}
-            /\ hist' = H([a |-> "Tx2", kind |-> "keep"])
+       ELSE /\ log' = {l \in log : l.tx # pc[p].tx}
+            /\ hist' = H([a |-> "Tx2", p |-> p, kind |-> "keep"])
             \* the repetition of a failed operation succeeded: nothing left to repeat
-            /\ retryOp' = IF retryOp[pc.s] = pc.op THEN [retryOp EXCEPT ![pc.s] = "none"] ELSE retryOp
+            /\ retryOp' = IF retryOp[pc[p].s] = pc[p].op THEN [retryOp EXCEPT ![pc[p].s] = "none"] ELSE retryOp
             /\ UNCHANGED <<vers, abandoned, rows>>
-    /\ pc' = Idle
+    /\ pc' = [pc EXCEPT ![p] = Idle]
     /\ UNCHANGED <<pub, nops, faults, ticks, sweeps, swept, pubtx, pubkeys, phase, todo>>
 
 (* --------------------------------------------------------------- Stop *)
+\* the process stops (enumerated while exactly one request is in flight)
 Stop ==
-    /\ pc.ph = "commit" /\ CanInject
+    /\ CanInject /\ \E p \in Procs : /\ Active = {p} /\ pc[p].ph = "commit"
+                                      /\ retryOp' = [retryOp EXCEPT ![pc[p].s] = pc[p].op]
+                                      /\ hist' = H([a |-> "Stop", p |-> p, after |-> Cardinality(pc[p].done)])
     /\ faults' = faults + 1
-    /\ retryOp' = [retryOp EXCEPT ![pc.s] = pc.op]
-    /\ pc' = Idle
-    /\ hist' = H([a |-> "Stop", after |-> Cardinality(pc.done)])
+    /\ pc' = [p \in Procs |-> Idle]
     /\ UNCHANGED <<rows, vers, log, pub, nops, ticks, sweeps, swept, pubtx, abandoned, pubkeys, phase, todo>>
 
 (* ------------------------------------------------------- Tick / Sweep *)
 TickEffect == vers' = [s \in Subjects |-> [m \in Methods |-> {[v EXCEPT !.fresh = FALSE] : v \in vers[s][m]}]]
 
-Tick == /\ pc = Idle /\ phase = "run" /\ ticks < MaxTicks
+Tick == /\ AllIdle /\ phase = "run" /\ ticks < MaxTicks
         /\ TickEffect /\ ticks' = ticks + 1
         /\ hist' = H([a |-> "Tick"])
         /\ UNCHANGED <<rows, log, pub, pc, nops, faults, sweeps, swept, pubtx, abandoned, pubkeys, retryOp, phase, todo>>
@@ -233,13 +260,13 @@ SweepEffect ==
             /\ pub' = [s \in Subjects |-> IF s \in gone THEN <<>> ELSE pub[s]]   \* a new create starts a new DID
             /\ hist' = H([a |-> "Sweep", aborted |-> FALSE])
 
-Sweep == /\ pc = Idle /\ phase = "run" /\ sweeps < MaxSweeps
+Sweep == /\ AllIdle /\ phase = "run" /\ sweeps < MaxSweeps
          /\ SweepEffect /\ sweeps' = sweeps + 1
          /\ UNCHANGED <<pc, nops, faults, ticks, pubtx, pubkeys, retryOp, phase, todo>>
 
 (* --------------------------------------------------------------- tail *)
 \* every behaviour ends with: a minute passes, the sweep runs, the operations hit by a fault are repeated without faults
-TailTick == /\ WithTail /\ pc = Idle /\ phase = "run" /\ nops >= 1
+TailTick == /\ WithTail /\ AllIdle /\ phase = "run" /\ nops >= 1
             /\ TickEffect /\ phase' = "ticked"
             /\ hist' = H([a |-> "Tick"])
             /\ UNCHANGED <<rows, log, pub, pc, nops, faults, ticks, sweeps, swept, pubtx, abandoned, pubkeys, retryOp, todo>>
@@ -247,21 +274,21 @@ TailSweep == /\ phase = "ticked"
              /\ SweepEffect /\ phase' = "swept"
              /\ todo' = {s \in Subjects : retryOp[s] # "none"}
              /\ UNCHANGED <<pc, nops, faults, ticks, sweeps, pubtx, pubkeys, retryOp>>
-TailSkip(s) == /\ phase = "swept" /\ pc = Idle /\ s \in todo /\ ~EnvOK(retryOp[s], s)
+TailSkip(s) == /\ phase = "swept" /\ AllIdle /\ s \in todo /\ ~EnvOK(retryOp[s], s)
                /\ todo' = todo \ {s}
                /\ UNCHANGED <<rows, vers, log, pub, pc, nops, faults, ticks, sweeps, swept, pubtx, abandoned, pubkeys, retryOp, phase, hist>>
 
-Terminal == pc = Idle /\ (IF WithTail THEN phase = "swept" /\ todo = {} ELSE nops = MaxOps)
+Terminal == AllIdle /\ (IF WithTail THEN phase = "swept" /\ todo = {} ELSE nops = MaxOps)
 
-Next == \/ \E op \in Ops, s \in Subjects : Tx1(op, s)
-        \/ \E m \in Methods : CommitMethod(m)
-        \/ Tx2 \/ Stop \/ Tick \/ Sweep \/ TailTick \/ TailSweep
+Next == \/ \E op \in Ops, s \in Subjects, p \in Procs : Tx1(op, s, p) \/ (EnvOK(op, s) /\ Check(op, s, p))
+        \/ \E p \in Procs, m \in Methods : CommitMethod(p, m)
+        \/ (\E p \in Procs : Tx2(p)) \/ Stop \/ Tick \/ Sweep \/ TailTick \/ TailSweep
         \/ \E s \in Subjects : TailSkip(s)
 
 Spec == Init /\ [][Next]_vars
 
 (* --------------------------------------------------------- properties *)
-Quiescent == pc = Idle /\ swept
+Quiescent == AllIdle /\ swept
 
 NoLogLeft == Quiescent => log = {}
 
@@ -286,7 +313,7 @@ AbandonedKeysNeverPublished == \A t \in abandoned : t \notin pubkeys
 
 SubjectHasOneDidSet == \A s \in Subjects : Cardinality(rows[s]) <= 1
 
-TypeOK == /\ pc.ph \in {"idle", "commit"}
+TypeOK == /\ \A p \in Procs : pc[p].ph \in {"idle", "checked", "commit"}
           /\ phase \in {"run", "ticked", "swept"}
           /\ \A l \in log : \E v \in vers[l.s][l.m] : v.tx = l.tx    \* cascade: no log row without its version
 =============================================================================
